@@ -27,7 +27,7 @@ ASSUMPTIONS = ["streams always end in a quit trailer that is reachable from ever
 
 TAGS = "foo\tf\t/foo/\nfoo\tg\t1\nmain\th.c\t/^int main/\nbar\tnofile\t1\nabc\tf\t3\n"
 EX_PREFIX = "rs a\nfoo\n.\nrs b\n1p\n.\nrs c\ns/a/b/\n.\nrs x\nbar\nbaz\n.\nrs \\a\n$d\n.\nrs \\x\nec hi\n.\n"
-VI_PREFIX = ":rs q\n" + "l" * 199 + "\n.\n:rs a\nx\n.\n:rs b\ndw\n.\n:rs x\nibar" + gen.ESC + "\n.\n:rs \\a\n$d\n.\n:rs \\x\nec hi\n.\n"
+VI_PREFIX = ":rs q\n" + "l" * 199 + "\n.\n:rs a\nx\n.\n:rs b\ndw\n.\n:rs x\nibar\x16" + gen.ESC + "\n.\n:rs \\a\n$d\n.\n:rs \\x\nec hi\n.\n"     # (^V ESC: a bare ESC would cancel the prompt)
 
 
 def prepare(build, tier):
